@@ -488,9 +488,9 @@ def run_c15(tape, tier, res):
 
 
 def extra_phase(tier, base_seed, prop="C08"):
-    if prop != "C08":
-        return {}
     from .. import bigworld
+    if prop == "C15":
+        return bigworld.omen_phase(tier, base_seed)
     return bigworld.resume_phase(tier, base_seed)
 
 
